@@ -137,7 +137,13 @@ func traceFields(o opts) error {
 			return prefix + "/" + n
 		}
 		for _, n := range append(append([]string{}, names...), "emb") {
-			switch r.Intn(6) {
+			switch r.Intn(8) {
+			case 6:
+				// a complete JSON value followed by more data: not a JSON document
+				svc.vals[join(n)] = []byte(pick(r, []string{`5 6`, `{"a":1,"b":"p"}{"a":2}`, `true false`, `"s" x`, `{"a":3} ]`, `7,`}))
+			case 7:
+				// trailing white space is fine
+				svc.vals[join(n)] = []byte(pick(r, []string{"5\n", `{"a":9,"b":"w"}` + " \n", " 12 "}))
 			case 0:
 				// absent
 			case 1:
@@ -183,6 +189,29 @@ func traceFields(o opts) error {
 				t = "x" + hx(d.tag)
 			}
 			shape = append(shape, fmt.Sprintf("%s:%s:%s", d.fname, d.lean, t))
+		}
+		// encoding/json's own verdict on each ",json" field's secret, asked independently of the
+		// code under test: does the whole secret decode into the field's type, and to what
+		var jsonOK []string
+		for i, d := range descs {
+			if !d.hasTag || i >= len(sfs) || sfs[i].Anonymous {
+				continue
+			}
+			parts := strings.Split(d.tag, ",")
+			if len(parts) < 2 || parts[len(parts)-1] != "json" {
+				continue
+			}
+			v, ok := svc.vals[join(parts[0])]
+			if !ok {
+				continue
+			}
+			pv := reflect.New(sfs[i].Type)
+			if err := json.Unmarshal(v, pv.Interface()); err != nil {
+				jsonOK = append(jsonOK, d.fname+":0:-")
+			} else {
+				js, _ := json.Marshal(pv.Elem().Interface())
+				jsonOK = append(jsonOK, d.fname+":1:"+hx(string(js)))
+			}
 		}
 		perr, aerr, namesOut, store := "-", "-", "-", (*setec.Store)(nil)
 		var listedOut []string
@@ -334,8 +363,8 @@ func traceFields(o opts) error {
 			svcNames = append(svcNames, hx(n)+"="+hb(v))
 		}
 		sort.Strings(svcNames)
-		emit("fields\tlisted=%s\tvia=%s\tprefix=%s\tshape=%s\tptr=%s\tsvc=%s\tperr=%s\tnames=%s\treqs=%s\taerr=%s\tvals=%s\tuntouched=%s\tstore_after=%s",
-			xlistT(listedOut), via, hx(prefix), strings.Join(shape, ";"), ptr, strings.Join(svcNames, ";"), perr, namesOut, xlistT(svc.reqs), aerr, strings.Join(vals, ";"), untouched, storeAfter)
+		emit("fields\tlisted=%s\tvia=%s\tprefix=%s\tshape=%s\tptr=%s\tsvc=%s\tperr=%s\tnames=%s\treqs=%s\taerr=%s\tvals=%s\tuntouched=%s\tstore_after=%s\tjsonok=%s",
+			xlistT(listedOut), via, hx(prefix), strings.Join(shape, ";"), ptr, strings.Join(svcNames, ";"), perr, namesOut, xlistT(svc.reqs), aerr, strings.Join(vals, ";"), untouched, storeAfter, strings.Join(jsonOK, ";"))
 	}
 	return nil
 }
